@@ -3,6 +3,7 @@ import gens as G
 import pyimpl as P
 from oracle_util import *  # noqa
 from tokutil import *  # noqa
+import h1tok_util as H
 
 ID = "C01"
 LEAN_MODULE = ["SCoda.Props.C01", "SCoda.Props.C01b", "SCoda.Props.C01Glue", "SCoda.Props.C02", "SCoda.Props.C01c", "SCoda.Props.TokTie", "SCoda.Props.C01n", "SCoda.Props.UtilTie"]
@@ -45,12 +46,14 @@ CLAUSES = [
 ]
 RULE = ("valid multi-track pieces (1-3 tracks, 1-5 bars, <=3 notes per bar and track, signature changes on bar lines, rests "
         "crossing bar lines, simultaneous notes across tracks) x configurations (all 16 flag combinations sampled, velocity "
-        "bins 1..16, pitch ranges (21,108)/(0,127), default steps/values); non-trivial = at least 2 notes and (2 tracks or a signature change)")
+        "bins 1..16, pitch ranges (21,108)/(0,127)/narrow ranges at both ends, default steps/values; about a quarter of the cases off the defaults: custom and unsorted step "
+        "lists, a step above ppqn, three-digit steps, repeated list entries, custom note-value sets, ppqn 12/48/96, input tracks written on channels other than 0); "
+        "non-trivial = at least 2 notes and (2 tracks or a signature change)")
 ASSUMPTIONS = ["models: SCoda.tokeniseCore/detokenise/vocabSeq + extract glue (merge, normalise, interleaved), tied by correspondence",
                "token text is compared with Python's, not reasoned about"]
 
 
-def has_tail(tracks):
+def has_tail(tracks, ppqn=24):
     """D15: a note still sounds after the end of the bar that contains the last event onset/cap"""
     notes, sigs, caps, wf = piece_of_tracks(tracks)
     # the tokeniser works on the *merged* piece: a trailing rest leaves a cap (INTERNAL) message only when it reaches past the
@@ -62,7 +65,7 @@ def has_tail(tracks):
         longest = max(longest, dur)
     caps = [longest] if longest > last_msg else []
     last = max([on for ns in notes for (p, on, d, v) in ns] + [t for t, _, _ in sigs] + caps + [0])
-    ends = bar_grid(sigs, last) or []
+    ends = bar_grid(sigs, last, ppqn) or []
     t_end = ends[-1] if ends else 0
     return any(on + d > t_end for ns in notes for (p, on, d, v) in ns)
 
@@ -75,7 +78,10 @@ def o_roundtrip(inp):
         return [("~skip:invalid-piece", "")]
     tk = cfg.tk()
     P.warm_up(inp.get("before"))
-    bins = list(tk.velocity_bins)
+    ppqn = cfgd["ppqn"] or 24
+    # the bin values are computed HERE from the bin count (audit round 3: they used to be read from the tokeniser under test);
+    # the rule has two recorded defects (D16: top bin below 127, D16b: repeated bins), reproduced by the harness-side formula
+    bins = H.h_velocity_bins(cfgd["velocity_bins"])
     fails = []
     try:
         toks = tk.tokenise([P.seq_of_rel(t) for t in tracks])
@@ -104,7 +110,7 @@ def o_roundtrip(inp):
         if not v["int"]:
             fails.append(("int", f"track {ti}: non-integer tick"))
     end_all = max([on + d for ns in notes for (p, on, d, v) in ns] + [t for t, _, _ in sigs] + caps + [0])
-    grid = bar_grid(sigs, end_all) or []
+    grid = bar_grid(sigs, end_all, ppqn) or []
     exp_dur = grid[-1] if grid else 0
     for ti, v in enumerate(view):
         if v["bar_ends"] != grid:
@@ -113,6 +119,15 @@ def o_roundtrip(inp):
     got_dur = max([v["duration"] for v in view] + [0])
     if got_dur != exp_dur:
         fails.append(("duration", f"detokenised duration {got_dur}, expected {exp_dur} (end of the last bar)"))
+    # "on the same bar grid": the time-signature EVENTS of the result (audit round 3, O8).  The detokeniser writes them on track 0
+    # and spells them in eighths (4/4 comes back as 8/8 or 4/4, a signature that repeats the one in force may be left out): what
+    # must agree is where the bar length changes and to what — the in-force bar-length timeline of all returned signature events
+    # against the timeline of the piece's signatures (plain input data).
+    got_sigs = [x for v in view for x in v["sigs"]]
+    exp_tl, got_tl = H.barlen_timeline(sigs, ppqn), H.barlen_timeline(sorted(got_sigs, key=lambda x: x[0]), ppqn)
+    if exp_tl != got_tl:
+        fails.append(("signatures", f"bar length in force (tick, ticks per bar) after detokenise {got_tl}, in the piece {exp_tl}; "
+                                    f"signature events returned {got_sigs}, given {sigs}"))
     return fails
 
 
@@ -120,18 +135,26 @@ def setup(ctx):
     ctx.oracle("roundtrip", o_roundtrip)
     ctx.history_oracles = {"roundtrip"}
 
+    import re as _re
+
+    def _ints(txt):
+        return [int(x) for x in _re.findall(r"-?\d+", txt)]
+
     def kf_d15(f):
+        """D15 by its OUTCOME (audit round 3, K5): the piece is in the tail class AND the result is the one the defect produces —
+        the stream stops with the bar of the last event onset, so the bar ends returned are exactly the grid up to that onset (a
+        proper prefix of the expected grid) and the duration is the later of that bar end and the last note end, SHORT of the
+        expected end.  A result that is too long, or short by another amount, is not this finding."""
         tracks = [[tuple(m) for m in t] for t in f["input"]["tracks"]]
-        if f["clause"] not in ("bar-grid", "duration") or not has_tail(tracks):
+        ppqn = f["input"]["cfg"].get("ppqn") or 24
+        if f["clause"] not in ("bar-grid", "duration") or not has_tail(tracks, ppqn):
             return False
-        if f["clause"] == "duration":
-            # the duration falls short only when the last note end is not itself a bar line (a piece ending in a whole-bar note
-            # without a final rest has the right duration although its last bar is never closed: audit round 2, A4a)
-            notes, sigs, caps, _ = piece_of_tracks(tracks)
-            end_all = max([on + d for ns in notes for (p_, on, d, v) in ns] + [t for t, _, _ in sigs] + caps + [0])
-            grid = bar_grid(sigs, end_all) or []
-            return end_all != (grid[-1] if grid else 0)
-        return True
+        p_ends, p_dur, full = H.d15_prediction(tracks, ppqn)
+        if f["clause"] == "bar-grid":
+            m = _re.search(r"bar ends (\[[^\]]*\]), expected (\[[^\]]*\])", f["detail"])
+            return bool(m) and _ints(m.group(1)) == p_ends and _ints(m.group(2)) == full and len(p_ends) < len(full)
+        m = _re.search(r"detokenised duration (-?\d+), expected (-?\d+)", f["detail"])
+        return bool(m) and int(m.group(1)) == p_dur and int(m.group(2)) == (full[-1] if full else 0) and p_dur < int(m.group(2))
 
     import json as _json
     import os as _os
@@ -145,8 +168,9 @@ def setup(ctx):
         n = f["input"]["cfg"].get("velocity_bins", 1)
         if n not in _short:
             return False          # recorded data: the bin counts whose top bin lies below 127 on the unchanged tree
-        bins = list(P.TkCfg(**f["input"]["cfg"]).tk().velocity_bins)
-        loud = any(m[0] == ON and (m[4] or 0) > max(bins) for t in f["input"]["tracks"] for m in t)
+        # the top bin from the harness-side formula (audit round 3, K5: it used to be read from the tokeniser under test)
+        top = max(H.h_velocity_bins(n))
+        loud = any(m[0] == ON and (m[4] or 0) > top for t in f["input"]["tracks"] for m in t)
         return loud and f["clause"] == "tokenise-raises" and "IndexError" in f["detail"]
     ctx.kf_predicates["D15"] = kf_d15
     ctx.kf_predicates["D16"] = kf_d16
@@ -159,17 +183,33 @@ D16_EXAMPLE = {"cfg": dict(num_tracks=1, velocity_bins=20), "tracks": [[G.pm(ON,
                                                                          G.pm(OFF, 0, None, note=60)]]}
 
 
+PITCH_RANGES = [(21, 108), (0, 127), (21, 108), (60, 72), (0, 11), (116, 127), (64, 64), (30, 90)]
+
+
 def cfg_kwargs(rng, n_tracks, thorough):
     flags = [rng.random() < 0.5 for _ in range(5)]
-    bins = rng.choice([1, 1, 2, 3, 4, 5, 8, 12, 16, 19, 22] if not thorough else [1, 2, 3, 4, 5, 6, 7, 8, 9, 10, 11, 12, 13, 14, 16, 18, 19, 21, 22, 23, 26])
+    # 15, 17, 20, 24: members of D16's class (top bin below 127) besides the recorded example; 19, 22, 23, 26: repeated bins (D16b's class)
+    bins = rng.choice([1, 1, 2, 3, 4, 5, 8, 12, 16, 19, 22, 15, 20] if not thorough else [1, 2, 3, 4, 5, 6, 7, 8, 9, 10, 11, 12, 13, 14, 15, 16, 17, 18, 19, 20, 21, 22, 23, 24, 26])
     return dict(num_tracks=n_tracks, velocity_bins=bins, running=flags[0], fuse_track=flags[1], fuse_value=flags[2],
-                fuse_velocity=flags[3], simplify_ts=flags[4], pitch_range=rng.choice([(21, 108), (0, 127), (21, 108)]))
+                fuse_velocity=flags[3], simplify_ts=flags[4], pitch_range=rng.choice(PITCH_RANGES))
+
+
+# audit round 3, O8: a signature change after the first bar must come back at ITS tick (witness: an edit that writes it at the in-bar time)
+SIG_EXAMPLE = {"cfg": dict(num_tracks=1), "tracks": [[G.pm(TIMESIG, 0, None, num=4, den=4), G.pm(ON, 0, None, note=60, vel=64), G.pm(WAIT, 0, 24),
+                                                        G.pm(OFF, 0, None, note=60), G.pm(WAIT, 0, 72), G.pm(TIMESIG, 0, None, num=3, den=4),
+                                                        G.pm(ON, 0, None, note=62, vel=64), G.pm(WAIT, 0, 24), G.pm(OFF, 0, None, note=62), G.pm(WAIT, 0, 48)]]}
+# audit round 3, O3: a step above ppqn is a rest token like any other (witness: an edit that leaves such steps out of the vocabulary)
+STEP_EXAMPLE = {"cfg": dict(num_tracks=1, step_sizes=[2, 4, 8, 48], note_values=[24]),
+                "tracks": [[G.pm(TIMESIG, 0, None, num=4, den=4), G.pm(WAIT, 0, 48), G.pm(ON, 0, None, note=60, vel=64), G.pm(WAIT, 0, 24),
+                            G.pm(OFF, 0, None, note=60), G.pm(WAIT, 0, 24)]]}
 
 
 def generate(ctx):
     rng = ctx.rng
     ctx.check("roundtrip", D15_EXAMPLE)
     ctx.check("roundtrip", D16_EXAMPLE)
+    ctx.check("roundtrip", SIG_EXAMPLE)
+    ctx.check("roundtrip", STEP_EXAMPLE)
     prev = None
     for i in range(ctx.n(150, 5000)):
         if i % 12 == 5:
@@ -178,16 +218,35 @@ def generate(ctx):
             kw = cfg_kwargs(rng, len(piece["tracks"]), ctx.thorough)
             kw.update(pitch_range=(60, 64), velocity_bins=rng.choice([1, 2]))
             ctx.count("tracks:many")
+        elif i % 4 == 2:
+            # off the default lists (audit round 3, O3/O4): custom / unsorted step lists, a step above ppqn, three-digit steps, repeated
+            # entries, custom note values, another resolution; the piece is drawn on THAT grid
+            nt = rng.choice([1, 1, 2, 3])
+            kw = cfg_kwargs(rng, nt, ctx.thorough)
+            kw.update(H.custom_cfg(rng, dup=0.2))
+            piece = H.gen_piece_p(rng, ppqn=kw.get("ppqn") or 24, steps=kw.get("step_sizes"), values=kw.get("note_values"), n_tracks=nt,
+                                  pitch_range=kw["pitch_range"], max_notes_per_bar=rng.choice([1, 2, 3]), tail_ok=False)
+            for lab in H.describe_cfg(kw):
+                ctx.count("cfg:" + lab)
         else:
-            piece = G.gen_piece(rng, pitch_range=(21, 108), tail_ok=False)
-            kw = cfg_kwargs(rng, len(piece["tracks"]), ctx.thorough)
+            kw = cfg_kwargs(rng, 1, ctx.thorough)
+            piece = G.gen_piece(rng, pitch_range=kw["pitch_range"], tail_ok=False)
+            kw["num_tracks"] = len(piece["tracks"])
+        if rng.random() < 0.25 and len(piece["tracks"]) <= 16:
+            # the input tracks need not be written on channel 0: each is a single-channel sequence, the tokeniser re-channels them
+            chans = [rng.randrange(16) for _ in piece["tracks"]]
+            piece["tracks"] = [H.rechannel(t, c) for t, c in zip(piece["tracks"], chans)]
+            ctx.count("tracks:on-other-channels")
+        ctx.count("pitch-range:%d-%d" % tuple(kw["pitch_range"]))
         cfg = P.TkCfg(**kw)
         nn = sum(len(x) for x in piece["notes"])
         ctx.case((piece["tracks"], sorted(kw.items())), nn >= 2 and (len(piece["tracks"]) > 1 or len(piece["sigs"]) > 1))
         ctx.count("flags:%d%d%d%d" % (kw["running"], kw["fuse_track"], kw["fuse_value"], kw["fuse_velocity"]))
         ctx.count("bins:%d" % kw["velocity_bins"])
-        if has_tail(piece["tracks"]):
+        if has_tail(piece["tracks"], kw.get("ppqn") or 24):
             ctx.count("tail(D15 class)")
+        if len(piece["sigs"]) > 1:
+            ctx.count("signature-change")
         if not valid_piece(cfg.kw, piece["tracks"]):
             ctx.count("invalid-piece")
         # the piece tokenised just before this one in the process is part of the (replayable) input
